@@ -118,6 +118,11 @@ type TermStore struct {
 	True   *Term
 	False  *Term
 	ufs    map[string]ufSig
+	// Injective: uninterpreted functions assumed collision-free (hash models); equalities
+	// between their applications are rewritten to equalities of the arguments.
+	Injective map[string]bool
+	// NonRange: ids of terms assumed not to be the output of any Injective function (per path).
+	NonRange map[int]bool
 	kb     strings.Builder
 }
 
@@ -127,7 +132,7 @@ type ufSig struct {
 }
 
 func NewTermStore() *TermStore {
-	ts := &TermStore{tab: make(map[string]*Term), ufs: make(map[string]ufSig)}
+	ts := &TermStore{tab: make(map[string]*Term), ufs: make(map[string]ufSig), Injective: map[string]bool{}, NonRange: map[int]bool{}}
 	ts.True = ts.mk(&Term{Op: OConst, Sort: BoolSort, Val: 1})
 	ts.False = ts.mk(&Term{Op: OConst, Sort: BoolSort, Val: 0})
 	return ts
@@ -370,6 +375,24 @@ func (ts *TermStore) Eq(a, b *Term) *Term {
 			return ts.Bool(constBig(a).Cmp(constBig(b)) == 0)
 		}
 		return ts.Bool(a.Val == b.Val)
+	}
+	if len(ts.Injective) > 0 && a.Sort.K == KBV {
+		if a.Op == OApp && b.Op == OApp && ts.Injective[a.Name] && ts.Injective[b.Name] {
+			if a.Name == b.Name {
+				conj := make([]*Term, len(a.Args))
+				for k := range a.Args {
+					conj[k] = ts.Eq(a.Args[k], b.Args[k])
+				}
+				return ts.And(conj...)
+			}
+			return ts.False // collision-free across input lengths / functions too
+		}
+		if (a.Op == OApp && ts.Injective[a.Name] && ts.NonRange[b.ID]) || (b.Op == OApp && ts.Injective[b.Name] && ts.NonRange[a.ID]) {
+			return ts.False
+		}
+		if a.Op == OConcat && b.Op == OConcat && a.Args[0].Sort == b.Args[0].Sort {
+			return ts.And(ts.Eq(a.Args[0], b.Args[0]), ts.Eq(a.Args[1], b.Args[1]))
+		}
 	}
 	if a.Sort.K == KBool {
 		if a.IsConst() {
@@ -782,6 +805,9 @@ func (ts *TermStore) Concat(hi, lo *Term) *Term {
 	w := hi.Sort.W + lo.Sort.W
 	if hi.IsConst() && lo.IsConst() && w <= 64 {
 		return ts.BVConst(hi.Val<<uint(lo.Sort.W)|lo.Val, w)
+	}
+	if hi.Op == OExtract && lo.Op == OExtract && hi.Args[0] == lo.Args[0] && int(hi.Val&0xffff) == int(lo.Val>>16)+1 {
+		return ts.Extract(hi.Args[0], int(hi.Val>>16), int(lo.Val&0xffff))
 	}
 	return ts.mk(&Term{Op: OConcat, Sort: BV(w), Args: []*Term{hi, lo}})
 }
